@@ -82,14 +82,14 @@ extern int mpt_vprintf(MPT_STRUCT(array) *arr, const char *format, va_list args)
 	if (!(base = mpt_array_slice(arr, used, len))) {
 		return MPT_ERROR(BadOperation);
 	}
-	size = used + len;
-	if ((rval = vsnprintf(base, len, format, args)) > 0) {
-		used += rval;
-		if (used < size) {
-			base[rval] = '\0';
-			return rval;
-		}
+	buf = arr->_buf;
+	if ((rval = vsnprintf(base, len, format, args)) >= 0
+	 && (size_t) rval < len) {
+		buf->_used = used + rval;
+		return rval;
 	}
+	/* remove space reserved for output */
+	buf->_used = used;
 	return MPT_ERROR(BadValue);
 }
 
